@@ -52,6 +52,7 @@ def run(rep, tier, seed, replay):
     direct = [c for c in walklib.gen_cases(seed + 3, n * 2, stack=c13.filter_stack, bounds="none", mode="p", link="f") if c.labels["base"] in ("root", "subdir")]
     direct += c13.followed_link_cases(seed + 6, n * 2)
     direct += [c for c in walklib.gen_cases(seed + 8, n, stack=c13.same_dir_stack, bounds="none", mode="p", link="f") if c.labels["base"] in ("root", "subdir")]
+    direct += c13.bounded_stack_cases(seed + 12, n * 2)
     if replay is not None:
         direct = []
     walklib.run_cases(cases + direct)
